@@ -345,17 +345,24 @@ def eval_case(ctx: Ctx, case: dict, stats: bool = False):
         def responder(prefix: bytes) -> bytes:
             return spec_term(d, w, h, prefix)["last"]
 
-        pt = ptyterm.PtyTerm(w, h, responder, force_placeholders=bool(case.get("force")))
+        pt = ptyterm.PtyTerm(w, h, responder, force_placeholders=bool(case.get("force")), buffered_display=bool(case.get("buffered")))
     gt = pt.term
     try:
         mstate = ("N", "0")
         model_ok = True
         for idx, op in enumerate(case["ops"]):
             before = bytes(pt.log)
+            if case.get("buffered") and backend == "pty":
+                # what is still pending in the display buffer arrives before anything this call makes the terminal do
+                before += bytes(pt.out_display._pending)
             st0 = spec_term(d, w, h, before)
             mark = pt.mark()
             rmark = len(pt.read_log)
             err = exec_real(gt, op)
+            if case.get("buffered") and backend == "pty":
+                # the display stream is buffered and distinct from the command stream: what the library leaves
+                # unflushed stays pending (it arrives with the next flush) — exactly as with sys.stdout.buffer
+                pt.wait_seen()
             data = pt.since(mark)
             tracked = gt.tracked_cursor_position
             if tracked is not None:
@@ -379,6 +386,8 @@ def eval_case(ctx: Ctx, case: dict, stats: bool = False):
                 mstate = ("N" if mtr is None else f"{mtr[0]},{mtr[1]}", mm)
                 for what, a, b in (("tracked_cursor_position", tracked, mtr), ("bytes written", data, mout),
                                    ("exception", err, merr)):
+                    if what == "bytes written" and case.get("buffered"):
+                        continue      # arrival order across two streams is not program order; judged by F only
                     if a != b:
                         mism.append((f"{what} after {op['op']}", idx,
                                      {"impl": a.hex() if isinstance(a, bytes) else a,
@@ -743,13 +752,21 @@ def cases(ctx: Ctx):
     for (w, h) in SIZES:
         for c in structured(w, h):
             yield c
+    # buffered display stream distinct from the command stream: unflushed output must not be overtaken by a query
+    for (w, h) in [(80, 24), (10, 5)]:
+        for pre in ([{"op": "write", "hex": b"abc".hex()}],
+                    [{"op": "ph", "id": 7, "pid": 0, "sc": 0, "sr": 0, "ec": 3, "er": 2, "mode": "default", "save": True, "lf": False}],
+                    [{"op": "write", "hex": b"ab\r\ncd".hex()}]):
+            yield {"w": w, "h": h, "name": "buffered-query", "force": False, "buffered": True,
+                   "ops": [{"op": "reset", "rbs": False}] + list(pre) + [{"op": "getpos"}, {"op": "mv", "right": 1}]}
     while True:
         w, h = rng.choice(SIZES)
         n = rng.choice([3, 6, 12, 25, 40, 60])
         ops = [gen_op(rng, w, h, k) for k in range(n)]
         if rng.random() < 0.6:
             ops.insert(0, {"op": "reset", "rbs": rng.random() < 0.3})
-        yield {"w": w, "h": h, "name": "random", "force": rng.random() < 0.3, "ops": ops[:60]}
+        yield {"w": w, "h": h, "name": "random", "force": rng.random() < 0.3, "ops": ops[:60],
+               **({"buffered": True} if rng.random() < 0.3 else {})}
 
 
 def run(ctx: Ctx):
